@@ -5,7 +5,7 @@
    that should receive Model.ml / Model.mli. *)
 Require Import ExtrOcamlBasic.
 From RV Require Import model.Base model.Clock model.Ledger model.Registry model.Chain model.Sync
-     model.Pool model.Json model.Sha256 model.Wire model.Neighborhood model.Wallet model.Views model.WireDec.
+     model.Pool model.Interleave model.Json model.Sha256 model.Wire model.Neighborhood model.Wallet model.Views model.WireDec.
 
 Extraction Language OCaml.
 Set Extraction Optimize.
@@ -17,6 +17,7 @@ Extraction "Model.ml"
               last_block_txs verify_block verify replay
   (* sync *) update candidates survivors select age_of
   (* pool *) node_empty pool_add validate pool_ids
+  (* interleaving machine *) istep istate_of update_decide
   (* wire *) render marshal_block marshal_tx marshal_utxo marshal_request marshal_input_info
              gen_id_sha block_hash_sha input_msg sha256 hex_of_bytes bytes_of_string
   (* neighborhood *) network_id add_targets incentive known reachable outbounds_count select_outbounds fanout
